@@ -103,6 +103,10 @@ claim('C42', 'E2+E1', 'exhaustive get/put sequences (with reslicing / appending 
       'Every sequence up to depth 3-6 per variant kind for ByteBuffer, ByteSlicesBuf and itemBuf; every buffer handed out is empty and has capacity >= the requested length.',
       'sync.Pool is replaced by a deterministic LIFO (one of its permitted behaviours).')
 
+claim('C25', 'E1', 'stateless DFS over interleavings of SharedPollPublish, refresh cycles (backend answers as environment choices), notifications, track/untrack/subscribe commands, revocation and close on a real node with a fossil-delta client model',
+      'Every interleaving up to deviation bound 1-2 of 15-26 scenarios (versioned with KeepLatestData / PrevData / plain, versionless content and hash modes); per (connection, key): pushed versions strictly increase, deltas apply to the held data, nothing after untrack / revoke / unsubscribe, newest version held at quiescence, publisher epoch change ends subscriptions with insufficient state.',
+      'One node, 1-2 connections, keys {a,b}; refresh timer on the virtual clock; thorough tier is bound 2 only for the smaller scenarios.')
+
 NA = {
  'C18': 'needs a Redis server (or faithful emulator) to execute the Redis broker; none exists in the sealed sandbox, so Redis-vs-Memory agreement cannot be explored',
  'C23': 'needs a Redis server (or faithful emulator) to execute the Redis map broker; none exists in the sealed sandbox',
